@@ -1,1 +1,1013 @@
-fn main() {}
+//! E-IDX: deterministic simulation of the built-in indexer (property C18).
+//!
+//! Real code: ckb_indexer's `Indexer<RocksdbStore>` (append / rollback / tip / prune, through
+//! the `verif-hooks` wrapper `VerifIndexer`) over a real RocksDB in a scratch directory, and
+//! `IndexerHandle::{get_cells, get_transactions, get_cells_capacity, get_indexer_tip}`.
+//! Simulated: the chain (a block tree built here with ckb-types builders; no consensus
+//! validity, only parent linkage and resolvable inputs), the "indexer sync" actor (one
+//! `try_loop_sync` iteration per `Sync` op: roll back while the indexer tip is not on the
+//! main chain, else append the next main-chain block), the clients issuing queries.
+//! Oracles: (1) every answer equals a naive filter over the model's live-cell set /
+//! transaction history of the chain that ends at the indexer's tip; (2) whenever the
+//! indexer returns to a block by rollback, the answers to a fixed query set and the dump of
+//! the live key prefixes equal what they were when that block was the tip before.
+
+mod model;
+mod oracle;
+
+use ckb_indexer::verif::VerifIndexer;
+use ckb_indexer::IndexerHandle;
+use model::*;
+use oracle::*;
+use serde::{Deserialize, Serialize};
+use simcore::*;
+use std::collections::{BTreeMap, BTreeSet, HashMap};
+use std::fs;
+use std::path::{Path, PathBuf};
+use std::rc::Rc;
+
+pub const PROP: &str = "C18";
+
+// ------------------------------------------------------------------ scenario
+
+#[derive(Clone, Debug, Serialize, Deserialize)]
+#[serde(tag = "op")]
+pub enum Op {
+    /// the chain gains one block on top of the main tip (the indexer does not see it yet)
+    Mine { block: BlockSpec },
+    /// the main chain switches to a competing branch that forks `back` blocks below the main tip
+    SwitchBranch { back: u32, blocks: Vec<BlockSpec> },
+    /// one iteration of the indexer-sync loop: rollback if the indexer tip is not on the main
+    /// chain, else append the next main-chain block (with `bounce`: append, rollback, compare
+    /// with the state before the append, append again)
+    Sync { bounce: bool },
+    /// undo the last appended block (outside the sync loop)
+    Rollback,
+    Query { q: QuerySpec },
+}
+
+/// Input domains in which the unmodified indexer is already known to deviate (see the
+/// findings reported with this engine). They are explored by a separate part of the check so
+/// that they do not mask anything else.
+#[derive(Clone, Copy, Debug, Default, Serialize, Deserialize)]
+pub struct Domains {
+    /// searched args may extend an existing script's args with zero bytes
+    #[serde(default)]
+    pub zero_args: bool,
+    /// get_cells_capacity queries may carry filter.script_len_range
+    #[serde(default)]
+    pub capacity_script_len_range: bool,
+    /// a manual Rollback may remove block 0 (leaving an index with no block)
+    #[serde(default)]
+    pub rollback_to_empty: bool,
+}
+
+#[derive(Clone, Debug, Serialize, Deserialize)]
+pub struct Scenario {
+    pub engine: String,
+    pub seed: u64,
+    pub keep_num: u64,
+    pub prune_interval: u64,
+    #[serde(default)]
+    pub domains: Domains,
+    pub scripts: Vec<ScriptSpec>,
+    /// fixed query set whose answers are snapshotted for the rollback-inverts-append oracle
+    pub probe_queries: Vec<QuerySpec>,
+    pub ops: Vec<Op>,
+}
+
+// ------------------------------------------------------------------ generator
+
+const DATAS: &[&str] = &["", "aa", "aabb", "aabbcc", "bbcc", "cc", "aabbccaabbccaabbccaabbccaabbccaabbccdd", "ff"];
+const CAPS: &[u64] = &[0, 100, 1000, 1000, 1001, 6_100_000_000, 6_100_000_000, 1 << 38];
+
+fn gen_scripts(r: &mut Rng, bleed: bool) -> Vec<ScriptSpec> {
+    // args are prefixes of a few master strings so that scripts share args prefixes
+    let masters: Vec<Vec<u8>> = if bleed {
+        vec![vec![0x01, 0x00, 0x00, 0x02], vec![0x00, 0x01], vec![0x01, 0x02, 0x00]]
+    } else {
+        vec![vec![0x01, 0x02, 0x03, 0x01], vec![0x02, 0x01], vec![0xff, 0xff, 0x01], vec![0x01, 0x01]]
+    };
+    let n = r.urange(4, 9);
+    let mut out: Vec<ScriptSpec> = Vec::new();
+    let mut guard = 0;
+    while out.len() < n && guard < 100 {
+        guard += 1;
+        let m = r.pick(&masters).clone();
+        let len = r.urange(0, m.len());
+        let s = ScriptSpec {
+            code: r.weighted(&[60, 30, 10]) as u8,
+            ht: r.pick(&["data", "data", "type", "data1"]).to_string(),
+            args: hex(&m[..len]),
+        };
+        if !out.contains(&s) {
+            out.push(s);
+        }
+    }
+    out
+}
+
+fn gen_out(r: &mut Rng, nscripts: usize) -> OutSpec {
+    OutSpec {
+        lock: r.idx(nscripts),
+        typ: if r.chance(45, 100) { Some(r.idx(nscripts)) } else { None },
+        data: r.pick(DATAS).to_string(),
+        cap: *r.pick(CAPS),
+    }
+}
+
+fn gen_block(r: &mut Rng, nscripts: usize, in_fork: bool, genesis: bool) -> BlockSpec {
+    let ncb = if genesis { r.urange(2, 4) } else { r.weighted(&[20, 50, 30]) };
+    let ntx = if genesis { r.urange(0, 1) } else { r.weighted(&[22, 35, 28, 15]) };
+    let mut txs = Vec::new();
+    for _ in 0..ntx {
+        let reuse_p = if in_fork { 35 } else { 8 };
+        if r.chance(reuse_p, 100) {
+            txs.push(TxItem::Reuse { k: r.below(64) as u32 });
+        } else {
+            let nin = r.urange(1, 2);
+            let nout = r.weighted(&[12, 40, 33, 15]);
+            txs.push(TxItem::New {
+                inputs: (0..nin)
+                    .map(|_| InSel {
+                        same_block: r.chance(30, 100),
+                        k: r.below(1 << 16) as u32,
+                    })
+                    .collect(),
+                outputs: (0..nout).map(|_| gen_out(r, nscripts)).collect(),
+            });
+        }
+    }
+    BlockSpec {
+        salt: r.next_u64() >> 8,
+        copy_cellbase: in_fork && r.chance(25, 100),
+        cellbase: (0..ncb).map(|_| gen_out(r, nscripts)).collect(),
+        txs,
+    }
+}
+
+fn gen_search_script(r: &mut Rng, scripts: &[ScriptSpec], bleed: bool) -> ScriptSpec {
+    let mut s = r.pick(scripts).clone();
+    let mut a = unhex(&s.args);
+    match r.weighted(&[50, 25, 12, 5, 8]) {
+        0 => {}
+        1 => {
+            let l = r.urange(0, a.len());
+            a.truncate(l);
+        }
+        2 => {
+            if bleed && r.chance(2, 3) {
+                // the searched args extend an existing script's args with zero bytes
+                for _ in 0..r.urange(1, 2) {
+                    a.push(0);
+                }
+            } else {
+                a.push(*r.pick(&[0x01u8, 0x02, 0x03, 0xff]));
+            }
+        }
+        3 => s.code = 7, // a code hash no cell uses
+        _ => s.ht = r.pick(&["data", "type", "data1", "data2"]).to_string(),
+    }
+    s.args = hex(&a);
+    s
+}
+
+fn gen_range(r: &mut Rng, points: &[u64]) -> [u64; 2] {
+    let a = *r.pick(points);
+    let b = *r.pick(points);
+    if r.chance(1, 8) { [a, b] } else { [a.min(b), a.max(b)] }
+}
+
+fn gen_query(r: &mut Rng, scripts: &[ScriptSpec], height: u64, dom: Domains) -> QuerySpec {
+    let bleed = dom.zero_args;
+    let api = ["cells", "txs", "txs_grouped", "capacity"][r.weighted(&[40, 25, 15, 20])].to_string();
+    let is_tx = api.starts_with("txs");
+    let mode = match r.weighted(&[35, 20, 40, 3]) {
+        0 => None,
+        1 => Some("prefix".to_string()),
+        2 => Some("exact".to_string()),
+        _ => Some("partial".to_string()),
+    };
+    let filter = if r.chance(1, 2) {
+        let mut f = FilterSpec::default();
+        if r.chance(35, 100) {
+            let mut fs = r.pick(scripts).clone();
+            if r.chance(30, 100) {
+                let mut a = unhex(&fs.args);
+                let l = r.urange(0, a.len());
+                a.truncate(l);
+                fs.args = hex(&a);
+            }
+            f.script = Some(fs);
+        }
+        let unsupported_ok = !is_tx || r.chance(4, 100);
+        if unsupported_ok {
+            if r.chance(25, 100) && (api != "capacity" || dom.capacity_script_len_range) {
+                f.script_len_range = Some(gen_range(r, &[0, 1, 33, 34, 35, 36, 37, 100]));
+            }
+            if r.chance(25, 100) {
+                let ds: &str = *r.pick(DATAS);
+                let d = unhex(ds);
+                let lo = r.urange(0, d.len());
+                let hi = r.urange(lo, d.len());
+                f.output_data = Some(hex(&d[lo..hi.max(lo)]));
+                f.output_data_mode = match r.weighted(&[30, 25, 25, 20]) {
+                    0 => None,
+                    1 => Some("prefix".into()),
+                    2 => Some("exact".into()),
+                    _ => Some("partial".into()),
+                };
+            }
+            if r.chance(20, 100) {
+                f.output_data_len_range = Some(gen_range(r, &[0, 1, 2, 3, 4, 19, 20, 100]));
+            }
+            if r.chance(20, 100) {
+                f.output_capacity_range =
+                    Some(gen_range(r, &[0, 1, 100, 101, 1000, 1001, 1002, 6_100_000_000, 6_100_000_001, 1 << 38, 1 << 40]));
+            }
+        }
+        if r.chance(30, 100) {
+            let pts: Vec<u64> = (0..=height + 2).collect();
+            f.block_range = Some(gen_range(r, &pts));
+        }
+        Some(f)
+    } else {
+        None
+    };
+    QuerySpec {
+        api,
+        script: gen_search_script(r, scripts, bleed),
+        script_type: if r.chance(60, 100) { "lock".into() } else { "type".into() },
+        mode,
+        filter,
+        order: if r.chance(55, 100) { "asc".into() } else { "desc".into() },
+        limit: [1u32, 2, 3, 5, 100, 0][r.weighted(&[25, 25, 15, 10, 22, 3])],
+        with_data: match r.weighted(&[60, 15, 25]) {
+            0 => None,
+            1 => Some(true),
+            _ => Some(false),
+        },
+    }
+}
+
+pub fn gen_scenario(seed: u64, suspects: bool) -> Scenario {
+    let mut r = Rng::new(seed ^ 0xC18_C18);
+    let keep_num = *r.pick(&[1u64, 2, 3, 3, 4, 5, 6, 8]);
+    let prune_interval = r.range(1, 6);
+    let dom = if suspects {
+        Domains {
+            zero_args: r.chance(1, 2),
+            capacity_script_len_range: r.chance(1, 2),
+            rollback_to_empty: r.chance(1, 2),
+        }
+    } else {
+        Domains::default()
+    };
+    let bleed = dom.zero_args;
+    let scripts = gen_scripts(&mut r, bleed);
+    let ns = scripts.len();
+    let nops = r.urange(25, 90);
+    let mut ops: Vec<Op> = Vec::new();
+    // shadow heights only steer the generator; the executor clamps everything itself
+    let mut h_main: u64 = 0;
+    ops.push(Op::Mine { block: gen_block(&mut r, ns, false, true) });
+    ops.push(Op::Sync { bounce: false });
+    while ops.len() < nops {
+        match r.weighted(&[20, 16, 20, 9, 6, 26]) {
+            0 => {
+                ops.push(Op::Mine { block: gen_block(&mut r, ns, false, false) });
+                h_main += 1;
+            }
+            1 => {
+                ops.push(Op::Mine { block: gen_block(&mut r, ns, false, false) });
+                h_main += 1;
+                ops.push(Op::Sync { bounce: r.chance(30, 100) });
+            }
+            2 => ops.push(Op::Sync { bounce: r.chance(30, 100) }),
+            3 => {
+                let back = match r.weighted(&[5, 30, 20, 20, 25]) {
+                    0 => 0,
+                    1 => 1,
+                    2 => 2,
+                    3 => keep_num,
+                    _ => r.range(1, keep_num),
+                } as u32;
+                let extra: i64 = match r.weighted(&[20, 50, 20, 10]) {
+                    0 => 0,
+                    1 => 1,
+                    2 => 2,
+                    _ => -1,
+                };
+                let len = (back as i64 + extra).max(1) as usize;
+                let blocks: Vec<BlockSpec> = (0..len).map(|_| gen_block(&mut r, ns, true, false)).collect();
+                h_main = h_main.saturating_sub(back as u64) + len as u64;
+                ops.push(Op::SwitchBranch { back, blocks });
+                if r.chance(70, 100) {
+                    // let the sync actor work through the reorg with queries in between
+                    for _ in 0..(back as usize + len) {
+                        ops.push(Op::Sync { bounce: r.chance(15, 100) });
+                        if r.chance(30, 100) {
+                            ops.push(Op::Query { q: gen_query(&mut r, &scripts, h_main, dom) });
+                        }
+                    }
+                }
+            }
+            4 => ops.push(Op::Rollback),
+            _ => ops.push(Op::Query { q: gen_query(&mut r, &scripts, h_main, dom) }),
+        }
+    }
+    let mut probe_queries = Vec::new();
+    for _ in 0..r.urange(4, 8) {
+        let mut q = gen_query(&mut r, &scripts, h_main / 2 + 1, dom);
+        if q.limit == 0 {
+            q.limit = 2;
+        }
+        probe_queries.push(q);
+    }
+    Scenario {
+        engine: "simidx".into(),
+        seed,
+        keep_num,
+        prune_interval,
+        domains: dom,
+        scripts,
+        probe_queries,
+        ops,
+    }
+}
+
+// ------------------------------------------------------------------ executor
+
+thread_local! {
+    static QUIET_PANIC: std::cell::Cell<bool> = const { std::cell::Cell::new(false) };
+}
+
+/// run indexer code; a panic inside it is reported, never propagated
+fn guarded<T>(f: impl FnOnce() -> T) -> Result<T, String> {
+    QUIET_PANIC.with(|q| q.set(true));
+    let r = std::panic::catch_unwind(std::panic::AssertUnwindSafe(f));
+    QUIET_PANIC.with(|q| q.set(false));
+    r.map_err(|e| {
+        if let Some(s) = e.downcast_ref::<String>() {
+            s.clone()
+        } else if let Some(s) = e.downcast_ref::<&str>() {
+            s.to_string()
+        } else {
+            "panic".to_string()
+        }
+    })
+}
+
+type Dump = Vec<(Vec<u8>, Vec<u8>)>;
+
+struct Snap {
+    answers: Vec<String>,
+    live_rows: Dump,
+}
+
+struct Exec<'a> {
+    sc: &'a Scenario,
+    world: World,
+    main: Option<usize>,
+    /// the block the indexer is expected to have as its tip
+    idx: Option<usize>,
+    /// highest block number ever appended to the indexer (prune is driven by it)
+    tmax: Option<u64>,
+    indexer: VerifIndexer,
+    handle: IndexerHandle,
+    snaps: HashMap<Option<usize>, Snap>,
+    sweep: Vec<QuerySpec>,
+    last_dump: Dump,
+    /// heights at which a manual rollback removed a block: (number, hash of the removed block)
+    manual_removed: Vec<(u64, H32)>,
+    last_reorg_depth: u64,
+    cur_reorg_depth: u64,
+    res: RunResult,
+    log: Fnv,
+    il: Fnv,
+}
+
+const LIVE_PREFIXES: [u8; 6] = [0, 64, 96, 128, 160, 224];
+
+fn prefix_name(p: u8) -> &'static str {
+    match p {
+        0 => "OutPoint",
+        32 => "ConsumedOutPoint",
+        64 => "CellLockScript",
+        96 => "CellTypeScript",
+        128 => "TxLockScript",
+        160 => "TxTypeScript",
+        192 => "TxHash",
+        224 => "Header",
+        _ => "unknown",
+    }
+}
+
+impl<'a> Exec<'a> {
+    fn ev(&mut self, s: &str) {
+        self.log.write_str(s);
+        if std::env::var_os("SIMIDX_TRACE").is_some() {
+            eprintln!("[trace] {s}");
+        }
+    }
+    fn viol(&mut self, class: &str, detail: String) {
+        if self.res.violation.is_none() {
+            self.res.violation = Some(Violation {
+                property: PROP.into(),
+                class: class.into(),
+                detail,
+            });
+        }
+    }
+    fn failed(&self) -> bool {
+        self.res.violation.is_some() || self.res.harness_error.is_some()
+    }
+
+    fn state(&self) -> Rc<MState> {
+        match self.idx {
+            Some(i) => self.world.blocks[i].state.clone(),
+            None => Rc::new(MState::default()),
+        }
+    }
+    fn tip_of(&self, i: Option<usize>) -> Option<(u64, H32)> {
+        i.map(|i| (self.world.blocks[i].number, self.world.blocks[i].hash))
+    }
+
+    /// retention rule of the property: a rollback that lands on block number `to` (None = empty
+    /// index) is inside the retention iff (highest appended number) - to <= keep_num
+    fn within_retention(&self, to: Option<u64>) -> bool {
+        match (self.tmax, to) {
+            (None, _) => true,
+            (Some(t), Some(n)) => t.saturating_sub(n) <= self.sc.keep_num,
+            (Some(t), None) => t + 1 <= self.sc.keep_num,
+        }
+    }
+
+    fn dump(&mut self) -> Dump {
+        match guarded(|| self.indexer.dump()) {
+            Ok(Ok(d)) => d,
+            Ok(Err(e)) => {
+                self.viol("store_error:dump", format!("{e}"));
+                Vec::new()
+            }
+            Err(p) => {
+                self.viol("indexer_panic:dump", p);
+                Vec::new()
+            }
+        }
+    }
+
+    fn run_query(&mut self, q: &QuerySpec, wher: &str) -> Option<String> {
+        let st = self.state();
+        let tip = self.tip_of(self.idx);
+        let out = check_query(&self.handle, &self.sc.scripts, q, &st, tip, &mut self.res.probes);
+        match out {
+            Ok(summary) => Some(summary),
+            Err((class, detail)) => {
+                self.viol(&class, format!("[{wher}] tip={:?} query={} :: {detail}", tip.map(|t| t.0), serde_json::to_string(q).unwrap()));
+                None
+            }
+        }
+    }
+
+    /// tip through both APIs + full sweep over every pool script
+    fn post_check(&mut self, wher: &str) {
+        let want = self.tip_of(self.idx);
+        match guarded(|| self.indexer.tip()) {
+            Ok(Ok(got)) => {
+                let got = got.map(|(n, h)| (n, h32(&h)));
+                if got != want {
+                    self.viol(
+                        &(if want.is_none() { "tip_mismatch:empty_index".to_string() } else { format!("tip_mismatch:{wher}") }),
+                        format!("Indexer::tip()={:?} expected {:?}", got.map(|g| (g.0, hex(&g.1))), want.map(|g| (g.0, hex(&g.1)))),
+                    );
+                }
+            }
+            Ok(Err(e)) => self.viol("store_error:tip", format!("{e}")),
+            Err(p) => self.viol("indexer_panic:tip", p),
+        }
+        match guarded(|| self.handle.get_indexer_tip()) {
+            Ok(Ok(got)) => {
+                let got = got.map(|t| (t.block_number.value(), t.block_hash.0));
+                if got != want {
+                    self.viol(
+                        &(if want.is_none() { "tip_mismatch:empty_index".to_string() } else { format!("tip_mismatch:{wher}") }),
+                        format!("get_indexer_tip()={:?} expected {:?}", got.map(|g| (g.0, hex(&g.1))), want.map(|g| (g.0, hex(&g.1)))),
+                    );
+                }
+            }
+            Ok(Err(e)) => self.viol("store_error:get_indexer_tip", format!("{e}")),
+            Err(p) => self.viol("indexer_panic:get_indexer_tip", p),
+        }
+        if self.failed() {
+            return;
+        }
+        let sweep = std::mem::take(&mut self.sweep);
+        for q in &sweep {
+            if self.run_query(q, &format!("sweep after {wher}")).is_none() {
+                break;
+            }
+        }
+        self.sweep = sweep;
+    }
+
+    fn probe_answers(&mut self) -> Vec<String> {
+        let mut out = Vec::new();
+        for q in &self.sc.probe_queries {
+            let a = guarded(|| raw_answer(&self.handle, &self.sc.scripts, q));
+            match a {
+                Ok(s) => out.push(s),
+                Err(p) => {
+                    self.viol("indexer_panic:probe_query", format!("{p} :: {}", serde_json::to_string(q).unwrap()));
+                    break;
+                }
+            }
+        }
+        out
+    }
+
+    fn live_rows(d: &Dump) -> Dump {
+        d.iter().filter(|(k, _)| LIVE_PREFIXES.contains(&k[0])).cloned().collect()
+    }
+
+    fn note_dump_change(&mut self, new: &Dump, appended: bool) {
+        if appended {
+            let newkeys: BTreeSet<&Vec<u8>> = new.iter().map(|(k, _)| k).collect();
+            let pruned = self
+                .last_dump
+                .iter()
+                .filter(|(k, _)| matches!(k[0], 32 | 192 | 224) && !newkeys.contains(k))
+                .count();
+            if pruned > 0 {
+                self.res.faults.inc("prune_fired");
+                self.res.faults.add("prune_removed_rows", pruned as u64);
+            }
+        }
+    }
+
+    fn take_snapshot(&mut self, at: Option<usize>, appended: bool) {
+        let d = self.dump();
+        self.note_dump_change(&d, appended);
+        let answers = self.probe_answers();
+        let live_rows = Self::live_rows(&d);
+        self.last_dump = d;
+        self.snaps.insert(at, Snap { answers, live_rows });
+    }
+
+    /// Oracle 2: the indexer came back to `at` by rollback
+    fn compare_snapshot(&mut self, at: Option<usize>, wher: &str) {
+        let d = self.dump();
+        let answers = self.probe_answers();
+        if self.failed() {
+            return;
+        }
+        let now = Self::live_rows(&d);
+        self.last_dump = d;
+        let Some(snap) = self.snaps.get(&at) else {
+            self.res.harness_error = Some(format!("no snapshot for block {at:?}"));
+            return;
+        };
+        self.res.probes.inc("inverse_compared");
+        let tmax = self.tmax.unwrap_or(0);
+        let keep = self.sc.keep_num;
+        // answers
+        for (i, (a, b)) in snap.answers.iter().zip(answers.iter()).enumerate() {
+            if a != b {
+                let q = serde_json::to_string(&self.sc.probe_queries[i]).unwrap();
+                let detail = format!("[{wher}] back at block {:?}: answer to {q} was {a} before the append(s), is {b} after rolling back", self.tip_of(at).map(|t| t.0));
+                self.viol("rollback_not_inverse:answers", detail);
+                return;
+            }
+        }
+        // rows of the live prefixes. `prune` (run by append) may have dropped Header rows of
+        // blocks <= tmax - keep_num - 1; nothing else may differ.
+        let before: BTreeMap<&Vec<u8>, &Vec<u8>> = snap.live_rows.iter().map(|(k, v)| (k, v)).collect();
+        let after: BTreeMap<&Vec<u8>, &Vec<u8>> = now.iter().map(|(k, v)| (k, v)).collect();
+        let mut bad: Option<(String, String)> = None;
+        let mut pruned_headers = 0;
+        for (k, v) in &before {
+            match after.get(*k) {
+                Some(v2) if v2 == v => {}
+                Some(_) => {
+                    bad = Some((prefix_name(k[0]).to_string(), format!("value of row {} changed", hex(k))));
+                    break;
+                }
+                None => {
+                    let prunable = k[0] == 224 && k.len() >= 9 && {
+                        let n = u64::from_be_bytes(k[1..9].try_into().unwrap());
+                        n + keep + 1 <= tmax
+                    };
+                    if prunable {
+                        pruned_headers += 1;
+                    } else {
+                        bad = Some((prefix_name(k[0]).to_string(), format!("row {} existed before the append(s) and is missing after rolling back", hex(k))));
+                        break;
+                    }
+                }
+            }
+        }
+        if bad.is_none() {
+            for (k, _) in &after {
+                if !before.contains_key(*k) {
+                    bad = Some((prefix_name(k[0]).to_string(), format!("row {} did not exist before the append(s) and is left behind after rolling back", hex(k))));
+                    break;
+                }
+            }
+        }
+        if pruned_headers > 0 {
+            self.res.probes.inc("inverse_compared_across_prune");
+        }
+        if let Some((p, d)) = bad {
+            let detail = format!("[{wher}] back at block {:?} (tmax {tmax}, keep_num {keep}): {d}", self.tip_of(at).map(|t| t.0));
+            self.viol(&format!("rollback_not_inverse:rows:{p}"), detail);
+        }
+    }
+
+    fn do_rollback(&mut self, wher: &str) {
+        let Some(cur) = self.idx else { return };
+        let parent = self.world.blocks[cur].parent;
+        let to = parent.map(|p| self.world.blocks[p].number);
+        if !self.within_retention(to) {
+            self.res.harness_error = Some(format!("{wher}: rollback to {to:?} outside retention (tmax {:?})", self.tmax));
+            return;
+        }
+        let depth_now = self.tmax.unwrap_or(0).saturating_sub(to.unwrap_or(0));
+        if depth_now == self.sc.keep_num {
+            self.res.probes.inc("rollback_at_retention_limit");
+        }
+        match guarded(|| self.indexer.rollback()) {
+            Ok(Ok(())) => {}
+            Ok(Err(e)) => {
+                self.viol("rollback_error", format!("{wher}: {e}"));
+                return;
+            }
+            Err(p) => {
+                self.viol("indexer_panic:rollback", format!("{wher}: {p}"));
+                return;
+            }
+        }
+        self.idx = parent;
+        self.res.faults.inc("rollback");
+        if parent.is_none() {
+            self.res.probes.inc("rollback_to_empty");
+        }
+        self.ev(&format!("{wher}: rollback -> {:?}", to));
+        self.post_check(wher);
+        if !self.failed() {
+            self.compare_snapshot(parent, wher);
+        }
+    }
+
+    fn do_append(&mut self, nb: usize, bounce: bool) {
+        let pre = self.idx;
+        let view = self.world.blocks[nb].view.clone();
+        let number = self.world.blocks[nb].number;
+        let rounds = if bounce { 2 } else { 1 };
+        for round in 0..rounds {
+            match guarded(|| self.indexer.append(&view)) {
+                Ok(Ok(())) => {}
+                Ok(Err(e)) => {
+                    self.viol("append_error", format!("block {number}: {e}"));
+                    return;
+                }
+                Err(p) => {
+                    self.viol("indexer_panic:append", format!("block {number}: {p}"));
+                    return;
+                }
+            }
+            self.idx = Some(nb);
+            self.tmax = Some(self.tmax.map_or(number, |t| t.max(number)));
+            self.ev(&format!("append {number} {}", hex(&self.world.blocks[nb].hash[..4])));
+            // a manual rollback followed by a different block at that height
+            if self.manual_removed.iter().any(|(n, h)| *n == number && *h != self.world.blocks[nb].hash) {
+                self.res.nontrivial = true;
+                self.res.probes.inc("rollback_then_different_append");
+            }
+            if self.world.blocks[nb].same_block_spend {
+                self.res.faults.inc("same_block_create_consume");
+            }
+            if self.world.blocks[nb].cellbase_unmatched {
+                self.res.probes.inc("header_row_with_filtered_flag");
+            }
+            if round + 1 < rounds {
+                self.post_check("append");
+                if self.failed() {
+                    return;
+                }
+                self.take_snapshot(Some(nb), true);
+                self.res.faults.inc("bounce");
+                self.do_rollback("bounce");
+                if self.failed() {
+                    return;
+                }
+                debug_assert!(self.idx == pre);
+            }
+        }
+        self.post_check("append");
+        if !self.failed() {
+            self.take_snapshot(Some(nb), true);
+        }
+    }
+
+    /// one iteration of IndexerSyncService::try_loop_sync
+    fn sync_step(&mut self, bounce: bool) -> u64 {
+        let Some(main) = self.main else { return 0 };
+        let chain = self.world.chain_of(main);
+        match self.idx {
+            None => {
+                self.do_append(chain[0], bounce);
+                1
+            }
+            Some(t) => {
+                let n = self.world.blocks[t].number as usize;
+                if n + 1 < chain.len() {
+                    let nb = chain[n + 1];
+                    if self.world.blocks[nb].parent == Some(t) {
+                        if self.cur_reorg_depth > 0 {
+                            self.last_reorg_depth = self.cur_reorg_depth;
+                            self.cur_reorg_depth = 0;
+                        }
+                        self.do_append(nb, bounce);
+                        1
+                    } else {
+                        self.cur_reorg_depth += 1;
+                        self.res.nontrivial = true;
+                        self.res.faults.inc("reorg_rollback");
+                        self.do_rollback("sync");
+                        2
+                    }
+                } else {
+                    0
+                }
+            }
+        }
+    }
+
+    fn fingerprint(&mut self) {
+        let st = self.state();
+        let mut scripts: BTreeSet<&Vec<u8>> = BTreeSet::new();
+        for c in st.live.values() {
+            scripts.insert(&c.lock);
+            if let Some(t) = &c.typ {
+                scripts.insert(t);
+            }
+        }
+        let tipn = self.idx.map(|i| self.world.blocks[i].number + 1).unwrap_or(0);
+        let mainn = self.main.map(|i| self.world.blocks[i].number + 1).unwrap_or(0);
+        let on_main = match (self.idx, self.main) {
+            (Some(i), Some(m)) => self.world.is_ancestor_or_self(i, m),
+            _ => true,
+        };
+        self.res.states.push(fp(&[
+            tipn,
+            st.live.len() as u64,
+            scripts.len() as u64,
+            self.last_reorg_depth,
+            mainn.saturating_sub(tipn).min(4),
+            on_main as u64,
+        ]));
+    }
+}
+
+fn build_sweep(scripts: &[ScriptSpec]) -> Vec<QuerySpec> {
+    let mut out = Vec::new();
+    let mk = |api: &str, s: &ScriptSpec, st: &str, mode: Option<&str>| QuerySpec {
+        api: api.into(),
+        script: s.clone(),
+        script_type: st.into(),
+        mode: mode.map(|m| m.to_string()),
+        filter: None,
+        order: "asc".into(),
+        limit: 10_000,
+        with_data: None,
+    };
+    for s in scripts {
+        for st in ["lock", "type"] {
+            out.push(mk("cells", s, st, Some("exact")));
+            out.push(mk("txs", s, st, Some("exact")));
+        }
+    }
+    // every (code, hash_type) family by prefix with empty args
+    let mut fam: BTreeSet<(u8, String)> = BTreeSet::new();
+    for s in scripts {
+        if fam.insert((s.code, s.ht.clone())) {
+            let e = ScriptSpec { code: s.code, ht: s.ht.clone(), args: String::new() };
+            for st in ["lock", "type"] {
+                out.push(mk("cells", &e, st, None));
+                out.push(mk("txs", &e, st, None));
+                out.push(mk("capacity", &e, st, None));
+            }
+        }
+    }
+    out
+}
+
+pub fn exec(sc: &Scenario, dir: &Path) -> RunResult {
+    let _ = fs::remove_dir_all(dir);
+    fs::create_dir_all(dir).unwrap();
+    let mut res = RunResult { seed: sc.seed, ..Default::default() };
+    if sc.scripts.is_empty() || sc.keep_num == 0 || sc.prune_interval == 0 {
+        res.harness_error = Some("bad scenario: scripts empty or keep_num/prune_interval zero".into());
+        return res;
+    }
+    let indexer = VerifIndexer::open(dir.join("db"), sc.keep_num, sc.prune_interval);
+    // the timeout is wall-clock inside the service; make it unreachable
+    let handle = indexer.handle(usize::MAX, std::time::Duration::from_secs(86_400));
+    let mut ex = Exec {
+        sc,
+        world: World::new(&sc.scripts),
+        main: None,
+        idx: None,
+        tmax: None,
+        indexer,
+        handle,
+        snaps: HashMap::new(),
+        sweep: build_sweep(&sc.scripts),
+        last_dump: Vec::new(),
+        manual_removed: Vec::new(),
+        last_reorg_depth: 0,
+        cur_reorg_depth: 0,
+        res,
+        log: Fnv::new(),
+        il: Fnv::new(),
+    };
+    ex.take_snapshot(None, false);
+    for (opi, op) in sc.ops.iter().enumerate() {
+        if ex.failed() {
+            break;
+        }
+        ex.res.steps += 1;
+        match op {
+            Op::Mine { block } => {
+                ex.il.write_u64(1);
+                let parent = ex.main;
+                match ex.world.build_block(parent, block, &mut ex.res.probes) {
+                    Ok(b) => {
+                        ex.main = Some(b);
+                        let n = ex.world.blocks[b].number;
+                        let ntx = ex.world.blocks[b].view.transactions().len();
+                        ex.il.write_u64(ntx as u64);
+                        ex.ev(&format!("op{opi} mine {n} txs={ntx}"));
+                    }
+                    Err(e) => ex.res.harness_error = Some(format!("op {opi}: {e}")),
+                }
+            }
+            Op::SwitchBranch { back, blocks } => {
+                ex.il.write_u64(2);
+                let Some(main) = ex.main else { continue };
+                let chain = ex.world.chain_of(main);
+                let tipn = ex.world.blocks[main].number;
+                // fork point number: never below what the indexer can still roll back to,
+                // never below genesis
+                let mut f = tipn.saturating_sub(*back as u64);
+                if let Some(t) = ex.tmax {
+                    let lo = t.saturating_sub(sc.keep_num);
+                    if f < lo {
+                        f = lo.min(tipn);
+                        ex.res.probes.inc("switch_clamped_to_retention");
+                    }
+                }
+                let mut parent = chain[f as usize];
+                let depth = tipn - f;
+                let mut built = 0;
+                for spec in blocks {
+                    match ex.world.build_block(Some(parent), spec, &mut ex.res.probes) {
+                        Ok(b) => {
+                            parent = b;
+                            built += 1;
+                        }
+                        Err(e) => {
+                            ex.res.harness_error = Some(format!("op {opi}: {e}"));
+                            break;
+                        }
+                    }
+                }
+                if built > 0 {
+                    ex.main = Some(parent);
+                    ex.res.faults.inc("reorg_switch");
+                    if depth > 0 {
+                        ex.res.probes.inc("switch_depth>=1");
+                    }
+                    if depth >= 3 {
+                        ex.res.probes.inc("switch_depth>=3");
+                    }
+                    if ex.world.blocks[parent].number < tipn {
+                        ex.res.probes.inc("switch_to_shorter_branch");
+                    }
+                }
+                ex.il.write_u64(depth);
+                ex.il.write_u64(built);
+                ex.ev(&format!("op{opi} switch fork_point={f} depth={depth} new_len={built}"));
+            }
+            Op::Sync { bounce } => {
+                ex.il.write_u64(3);
+                let what = ex.sync_step(*bounce);
+                ex.il.write_u64(what + if *bounce { 8 } else { 0 });
+            }
+            Op::Rollback => {
+                ex.il.write_u64(4);
+                if let Some(cur) = ex.idx {
+                    let to = ex.world.blocks[cur].parent.map(|p| ex.world.blocks[p].number);
+                    if to.is_none() && !sc.domains.rollback_to_empty {
+                        ex.res.probes.inc("manual_rollback_of_block0_skipped");
+                    } else if ex.within_retention(to) {
+                        let rem = (ex.world.blocks[cur].number, ex.world.blocks[cur].hash);
+                        ex.manual_removed.push(rem);
+                        ex.res.faults.inc("manual_rollback");
+                        ex.do_rollback("manual");
+                        ex.il.write_u64(1);
+                    } else {
+                        ex.res.probes.inc("manual_rollback_skipped_outside_retention");
+                    }
+                }
+            }
+            Op::Query { q } => {
+                ex.il.write_u64(5);
+                if let (Some(i), Some(m)) = (ex.idx, ex.main) {
+                    if !ex.world.is_ancestor_or_self(i, m) {
+                        ex.res.probes.inc("query_mid_reorg");
+                    } else if i != m {
+                        ex.res.probes.inc("query_while_lagging");
+                    }
+                }
+                if let Some(s) = ex.run_query(q, &format!("op {opi}")) {
+                    ex.ev(&format!("op{opi} query -> {s}"));
+                }
+            }
+        }
+        ex.fingerprint();
+    }
+    let mut res = ex.res;
+    res.log_hash = ex.log.finish();
+    res.interleaving = ex.il.finish();
+    drop(ex.indexer);
+    drop(ex.handle);
+    let _ = fs::remove_dir_all(dir);
+    res
+}
+
+// ------------------------------------------------------------------ main
+
+fn scratch_root() -> PathBuf {
+    let base = if Path::new("/dev/shm").is_dir() { PathBuf::from("/dev/shm") } else { std::env::temp_dir() };
+    base.join(format!("verif-idx-{}", std::process::id()))
+}
+
+fn main() {
+    let args: Vec<String> = std::env::args().collect();
+    let mode = args.get(1).map(|s| s.as_str()).unwrap_or("");
+    let default_hook = std::panic::take_hook();
+    std::panic::set_hook(Box::new(move |info| {
+        if !QUIET_PANIC.with(|q| q.get()) {
+            default_hook(info);
+        }
+    }));
+    let root = scratch_root();
+    let suspects = arg_flag(&args, "--suspects");
+    let code = match mode {
+        "gen" => {
+            let seed: u64 = arg_value(&args, "--seed").unwrap().parse().unwrap();
+            let sc = gen_scenario(seed, suspects);
+            println!("{}", serde_json::to_string_pretty(&sc).unwrap());
+            0
+        }
+        "exec" => {
+            let path = arg_value(&args, "--scenario").unwrap();
+            let sc: Scenario = serde_json::from_str(&fs::read_to_string(path).unwrap()).unwrap();
+            let res = exec(&sc, &root.join("x"));
+            println!("{}", serde_json::to_string(&res).unwrap());
+            0
+        }
+        "batch" => {
+            let (lo, hi) = parse_seed_range(&arg_value(&args, "--seeds").unwrap());
+            let threads: usize = arg_value(&args, "--threads").map(|s| s.parse().unwrap()).unwrap_or(16);
+            let mut batch = BatchResult::new("simidx");
+            parallel_seeds(
+                lo,
+                hi,
+                threads,
+                |seed| {
+                    let sc = gen_scenario(seed, suspects);
+                    let dir = root.join(format!("t{:?}", std::thread::current().id()).replace(['(', ')'], ""));
+                    let res = exec(&sc, &dir);
+                    (sc, res)
+                },
+                |_, (sc, res)| {
+                    if batch.samples.len() < 3 && res.nontrivial && res.violation.is_none() && sc.ops.len() <= 45 {
+                        batch.samples.push(serde_json::to_value(&sc).unwrap());
+                    }
+                    batch.absorb(&res, || serde_json::to_value(&sc).unwrap());
+                },
+            );
+            batch.finish();
+            println!("{}", serde_json::to_string(&batch).unwrap());
+            0
+        }
+        _ => {
+            eprintln!("usage: simidx gen --seed S [--suspects] | exec --scenario FILE | batch --seeds a..b [--threads N] [--suspects]");
+            2
+        }
+    };
+    let _ = fs::remove_dir_all(&root);
+    std::process::exit(code);
+}
